@@ -47,7 +47,9 @@ structure BInv (s : St) : Prop where
     l = s.low ∧ s.low < s.high ∧ m = qval s s.low ∧ s.buf (s.low % s.cap) = 0 ∧
     ∀ g v, s.pc g ≠ .sClaimed v s.low
 
-theorem binv_init (cap : Nat) : BInv (init .bounded cap) := by
-  constructor <;> simp [init, qval, qown, sentBy, Pc.pending, Pc.isRecv, Signal.pinit]
+theorem binv_initM (spin : Bool) (cap : Nat) : BInv (initM spin .bounded cap) := by
+  constructor <;> simp [initM, qval, qown, sentBy, Pc.pending, Pc.isRecv, Signal.pinit]
+
+theorem binv_init (cap : Nat) : BInv (init .bounded cap) := binv_initM false cap
 
 end LibfiberVerif.Chan
